@@ -314,6 +314,19 @@ CHECKS = {
                           ('xrep', 'xrep'), ('xrespondent', 'xrespondent'), ('xpub', 'xpub'), ('pair', 'xpair')]],
         'assumptions': ASSUME_COMMON,
     },
+    'C19': {
+        'level': 'model_checking',
+        'jobs': [
+            T('MC_Options', 'Options.cfg', workers=4),
+            C('opts', 'TestOptions', 'TraceOptions', trivial_len=5, vtimeout=3000),
+            C('optresize', 'TestOptResize', 'TraceOptions', trivial_len=0),
+            C('surveyor', 'TestSurveyor', 'TraceSurveyor', n={'quick': 20, 'thorough': 300}, env={'VERIF_MIX': 'deadline'}),
+        ],
+        'rule': 'one trace per object group (a socket of each of the 19 protocols; socket + context of the 5 patterns with contexts; per transport a '
+                'listener and dialer before connecting, a pipe, and dialer / listener after connecting); within it every option name x 18 value classes; '
+                'distinct = distinct (object, name, class, result) sequences',
+        'assumptions': ASSUME_COMMON + ['the valid type / range per option NAME is our reading of options.go; where it is silent the contract says either'],
+    },
     'C02': {
         'level': 'model_checking',
         'jobs': [
